@@ -267,9 +267,13 @@ let process (line : string) : string =
     let key t = match t with
       | TApp (OTimes, [a; b]) -> (match a, b with TNum _, _ -> rk b | _, TNum _ -> rk a | _, _ -> rk t)
       | _ -> rk t in
+    (* since fix c8000f0 ties (x, c*x) are broken by the term's own PTRef: a total order on the reported terms *)
     let leb a b =
       let ka = key a and kb = key b in
-      if ka = max_int && kb = max_int then compare a b <= 0 else ka <= kb in
+      if ka = max_int && kb = max_int then compare a b <= 0
+      else if ka <> kb then ka <= kb
+      else let ra = rk a and rb = rk b in
+        if ra = max_int && rb = max_int then compare a b <= 0 else ra <= rb in
     let variants = model_variants leb lg opn args in
     let impl = if res = "undef" || (String.length res >= 4 && String.sub res 0 4 = "exc:") then None
       else Some (canon (term_of_sx (parse_sx res))) in
